@@ -60,6 +60,12 @@ type scfg struct {
 	// announces itself to that member and acknowledges the view it wants to impose.
 	// "<tag>:<view>", tag in own|invoker|absent, view in withme|withabsent
 	React string `json:"react,omitempty"`
+	// Slow: directed links whose packets are held back until Release probe intervals have passed
+	// (an asymmetric partition that heals); SlowMask is its compact form for the case id
+	Slow    [][2]uint16 `json:"slow_links,omitempty"`
+	Release int         `json:"release_intervals,omitempty"`
+	// Retry: an invoker whose Synchronize returned an error invokes it once more on the same topic
+	Retry bool `json:"retry,omitempty"`
 }
 
 func (k scfg) id() string {
@@ -67,7 +73,10 @@ func (k scfg) id() string {
 		return fmt.Sprintf("%s/U%v/e%d/inv%v/byz%v/out%v%s", k.Name, k.U, k.E, k.Invokers, k.Byz, k.Out, k.React)
 	}
 	if k.React != "" {
-		return fmt.Sprintf("%s/U%v/e%d/inv%v/byz%v/%s", k.Name, k.U, k.E, k.Invokers, k.Byz, k.React)
+		return fmt.Sprintf("%s/U%v/e%d/inv%v/byz%v/%s/retry=%v", k.Name, k.U, k.E, k.Invokers, k.Byz, k.React, k.Retry)
+	}
+	if len(k.Slow) > 0 {
+		return fmt.Sprintf("%s/U%v/e%d/inv%v/slow%v/r%d", k.Name, k.U, k.E, k.Invokers, k.Slow, k.Release)
 	}
 	return fmt.Sprintf("%s/U%v/e%d/inv%v/byz%v", k.Name, k.U, k.E, k.Invokers, k.Byz)
 }
@@ -221,6 +230,7 @@ func run(c *harness.C, k scfg, r world.Chooser) *out {
 		w.Quantum = interval / 2
 		w.EarlyAdvance = k.Early
 		var mu sync.Mutex
+		attempt := map[uint16]int{}
 		heard := map[uint16]map[uint16]bool{}
 		for _, id := range k.U {
 			heard[id] = map[uint16]bool{}
@@ -264,7 +274,53 @@ func run(c *harness.C, k scfg, r world.Chooser) *out {
 					absent = append(absent, u)
 				}
 			}
-			parts := strings.SplitN(k.React, ":", 2)
+			if k.React == "retry-split" {
+				// two Byzantine members b1, b2; honest h1, h2. b1 gives h1 the view {h1,h2,b1} and
+				// confirms it; it gives h2 the same view but never confirms; when h2 tries again,
+				// b1 and b2 give it {h2,b1,b2} and confirm that.
+				h1, h2, b1, b2 := k.Invokers[0], k.Invokers[1], k.Byz[0], k.Byz[1]
+				srt := func(l ...uint16) []uint16 {
+					sort.Slice(l, func(i, j int) bool { return l[i] < l[j] })
+					return l
+				}
+				v1, v2 := srt(h1, h2, b1), srt(h2, b1, b2)
+				w.Net.Filter = func(p *world.Packet) []*world.Packet {
+					if p.Injected || !isIn(p.From, k.Invokers) || p.Type != 1 {
+						return []*world.Packet{p}
+					}
+					first := k.U[0]
+					if first == p.From {
+						first = k.U[1]
+					}
+					if p.To != first {
+						return []*world.Packet{p}
+					}
+					out := []*world.Packet{p}
+					say := func(from, to uint16, mt byte, view []uint16) {
+						mu.Lock()
+						heard[to][from] = true
+						mu.Unlock()
+						out = append(out, &world.Packet{From: from, To: to, Type: 1, Topic: topic, Data: encode(mt, tagOf(from), view)})
+					}
+					mu.Lock()
+					second := attempt[h2] == 2
+					mu.Unlock()
+					switch {
+					case p.From == h1:
+						say(b1, h1, 1, v1)
+						say(b1, h1, 3, v1)
+					case p.From == h2 && !second:
+						say(b1, h2, 1, v1)
+					case p.From == h2 && second:
+						say(b1, h2, 1, v2)
+						say(b2, h2, 1, v2)
+						say(b1, h2, 3, v2)
+						say(b2, h2, 3, v2)
+					}
+					return out
+				}
+			}
+			parts := strings.SplitN(k.React+":", ":", 3)
 			tg := tagOf(adv)
 			switch {
 			case parts[0] == "invoker":
@@ -273,11 +329,15 @@ func run(c *harness.C, k scfg, r world.Chooser) *out {
 				tg = tagOf(absent[0])
 			}
 			lie := append(append([]uint16(nil), k.Invokers...), adv)
-			if parts[1] == "withabsent" && len(absent) > 0 {
+			if len(parts) > 1 && parts[1] == "withabsent" && len(absent) > 0 {
 				lie = append(append([]uint16(nil), k.Invokers...), absent[0])
 			}
 			sort.Slice(lie, func(i, j int) bool { return lie[i] < lie[j] })
-			w.Net.Filter = func(p *world.Packet) []*world.Packet {
+			generic := w.Net.Filter == nil
+			if generic {
+				w.Net.Filter = func(p *world.Packet) []*world.Packet { return []*world.Packet{p} }
+			}
+			genericFilter := func(p *world.Packet) []*world.Packet {
 				if p.Injected || p.From == adv || !isIn(p.From, k.Invokers) || p.Type != 1 {
 					return []*world.Packet{p}
 				}
@@ -298,6 +358,17 @@ func run(c *harness.C, k scfg, r world.Chooser) *out {
 				}
 				return out
 			}
+			if generic {
+				w.Net.Filter = genericFilter
+			}
+		}
+		if len(k.Slow) > 0 {
+			slow := map[[2]uint16]bool{}
+			for _, l := range k.Slow {
+				slow[l] = true
+			}
+			release := time.Duration(k.Release) * interval
+			w.Hold = func(p *world.Packet) bool { return slow[[2]uint16{p.From, p.To}] && w.Now() < release }
 		}
 		started := map[uint16]bool{}
 		w.Extra = func() []world.Event {
@@ -317,7 +388,7 @@ func run(c *harness.C, k scfg, r world.Chooser) *out {
 					w.Go(func() {
 						ctx, cancel := context.WithTimeout(context.Background(), deadline)
 						defer cancel()
-						err := mp.m.Synchronize(ctx, func(l []uint16) {
+						cont := func(l []uint16) {
 							mu.Lock()
 							cm.runs++
 							cm.list = append([]uint16(nil), l...)
@@ -326,7 +397,16 @@ func run(c *harness.C, k scfg, r world.Chooser) *out {
 								cm.heard[x] = true
 							}
 							mu.Unlock()
-						}, topic, k.E, interval)
+						}
+						err := mp.m.Synchronize(ctx, cont, topic, k.E, interval)
+						if err != nil && k.Retry {
+							mu.Lock()
+							attempt[id] = 2
+							mu.Unlock()
+							ctx2, cancel2 := context.WithTimeout(context.Background(), deadline)
+							err = mp.m.Synchronize(ctx2, cont, topic, k.E, interval)
+							cancel2()
+						}
 						mu.Lock()
 						cm.err, cm.ret, cm.at = err, true, w.Now()
 						mu.Unlock()
@@ -360,7 +440,11 @@ func run(c *harness.C, k scfg, r world.Chooser) *out {
 			}
 			return ev
 		}
-		w.Loop(r, deadline+2*interval)
+		horizon := deadline + 2*interval
+		if k.Retry {
+			horizon += deadline
+		}
+		w.Loop(r, horizon)
 		// everything that returned is recorded; what did not return by the horizon is a hang
 		o.trace = w.Trace
 		w.Stop()
@@ -621,6 +705,35 @@ func gen(c *harness.C) []harness.Case {
 			}
 		}
 	}
+	// asymmetric partitions that heal: every set of directed links is slow (held back for three probe
+	// intervals) - all honest
+	slowPlans := func(u []uint16, e int, inv []uint16, bound int) {
+		var links [][2]uint16
+		for _, a := range inv {
+			for _, b := range inv {
+				if a != b {
+					links = append(links, [2]uint16{a, b})
+				}
+			}
+		}
+		for m := 1; m < 1<<len(links); m++ {
+			var sl [][2]uint16
+			for i := range links {
+				if m>>i&1 == 1 {
+					sl = append(sl, links[i])
+				}
+			}
+			plans = append(plans, plan{scfg{Name: "slow-links", U: u, E: e, Invokers: inv, Slow: sl, Release: 3}, bound})
+		}
+	}
+	slowPlans([]uint16{1, 2, 3}, 2, []uint16{1, 2, 3}, 1)
+	slowPlans([]uint16{1, 2, 3}, 3, []uint16{1, 2, 3}, 1)
+	slowPlans([]uint16{1, 2, 3, 4}, 3, []uint16{1, 2, 3, 4}, 0)
+	if c.Thorough() {
+		slowPlans([]uint16{1, 2, 3, 4}, 2, []uint16{1, 2, 3, 4}, 0)
+		slowPlans([]uint16{1, 2, 3, 4}, 4, []uint16{1, 2, 3, 4}, 0)
+		slowPlans([]uint16{1, 2, 3, 4}, 3, []uint16{1, 2, 3}, 1)
+	}
 	// reactive adversaries: an outsider / a Byzantine member that answers every honest broadcast
 	for _, rc := range []string{"own:withme", "invoker:withme", "absent:withme", "absent:withabsent", "own:withabsent"} {
 		for _, e := range []int{2, 3} {
@@ -634,6 +747,20 @@ func gen(c *harness.C) []harness.Case {
 				plans = append(plans, plan{scfg{Name: "reactive-byz", U: []uint16{1, 2, 3}, E: e, Invokers: []uint16{1, 2}, Byz: []uint16{3}, React: rc}, bd})
 			}
 		}
+	}
+	// a failed attempt followed by a second attempt on the same topic, with two Byzantine members
+	// that show the retrying member another view the second time
+	for _, rt := range []bool{false, true} {
+		bd := 1
+		if c.Thorough() {
+			bd = 2
+		}
+		plans = append(plans, plan{scfg{Name: "retry", U: []uint16{1, 2, 3, 4}, E: 3, Invokers: []uint16{1, 2}, Byz: []uint16{3, 4}, React: "retry-split", Retry: rt}, bd})
+		plans = append(plans, plan{scfg{Name: "retry", U: []uint16{1, 2, 3, 4}, E: 3, Invokers: []uint16{2, 1}, Byz: []uint16{4, 3}, React: "retry-split", Retry: rt}, bd})
+	}
+	// honest retries: one member is late, the others fail and try again
+	for _, u := range [][]uint16{{1, 2, 3}} {
+		plans = append(plans, plan{scfg{Name: "retry-honest", U: u, E: 3, Invokers: []uint16{1, 2}, Retry: true, Early: true}, 1})
 	}
 	// two Byzantine members, two honest ones
 	bb := 1
